@@ -43,12 +43,12 @@ func (c *wrapConn) Close() error {
 }
 
 type nProc struct {
-	mu        sync.Mutex
-	noClose   bool // the processor does not close the data connection itself (its own close is already in progress)
-	w         *WebsocketConnection
-	reports   int
-	delivered int
-	onReport  func() // runs inside ReportConnectionError (the SHIP layer being busy with the error)
+	mu                   sync.Mutex
+	noClose              bool // the processor does not close the data connection itself (its own close is already in progress)
+	w                    *WebsocketConnection
+	reports              int
+	delivered            int
+	onReport             func() // runs inside ReportConnectionError (the SHIP layer being busy with the error)
 	deliveredAfterReport int
 }
 
@@ -267,9 +267,9 @@ func H_C13_Native() {
 		if err != nil {
 			continue
 		}
-		cause := it % 4
+		cause := it % 5
 		p.proc.mu.Lock()
-		p.proc.noClose = (it/4)%2 == 1
+		p.proc.noClose = (it/5)%2 == 1 && cause != 4
 		p.proc.mu.Unlock()
 		// while the SHIP layer handles the error the peer sends one more frame: it must not be delivered any more
 		pp := p
@@ -292,12 +292,15 @@ func H_C13_Native() {
 		case 3: // local close with a reason while the transport can no longer be written: still a local close
 			atomic.StoreInt32(&p.wc.failWriteAt, 1)
 			p.w.CloseDataConnection(4500, "bye")
+		case 4: // the ping period elapses (50 s in reality: the tick handler is called directly) and the PING can not be written
+			atomic.StoreInt32(&p.wc.failWriteAt, 1)
+			p.w.handlePing()
 		}
 		time.Sleep(120 * time.Millisecond)
 		reports, _ := p.proc.counts()
 		closed, cerr := p.w.IsDataConnectionClosed()
 		switch cause {
-		case 0, 1:
+		case 0, 1, 4:
 			zzvrt.Assert(reports >= 1, "C13.transport-loss-not-reported")
 			zzvrt.Assert(closed && cerr != nil, "C13.closed-query-after-transport-loss")
 		case 2, 3:
